@@ -70,6 +70,11 @@ def php_expr(e, top=False):
         return "(%s === %s)" % (php_expr(e[1]), php_expr(e[2]))
     if k == "panic":
         return "verif_panic()"      # registered by harness/cmd/c05: a built-in whose Go body panics
+    if k == "match":
+        arms = ["%s => %s" % (", ".join(php_expr(c) for c in cs), php_expr(x)) for cs, x in e[2]]
+        if e[3] is not None:
+            arms.insert(min(e[4], len(arms)), "default => %s" % php_expr(e[3]))
+        return "match (%s) { %s }" % (php_expr(e[1], True), ", ".join(arms))
     raise ValueError(k)
 
 
@@ -193,6 +198,11 @@ def coq_expr(e):
         return "(ESame %s %s)" % (coq_expr(e[1]), coq_expr(e[2]))
     if k == "panic":
         return "EPanic"
+    if k == "match":
+        m = "MNil" if e[3] is None else "(MDefault %s)" % coq_expr(e[3])
+        for cs, x in reversed(e[2]):
+            m = "(MCons %s %s %s)" % (coq_args(cs), coq_expr(x), m)
+        return "(EMatch %s %s)" % (coq_expr(e[1]), m)
     raise ValueError(k)
 
 
@@ -285,7 +295,7 @@ def kinds_of(x, acc):
 
 STMT_KINDS = {"expr", "echo", "push", "if", "while", "dowhile", "for", "foreach", "switch", "break", "continue",
               "return", "static", "try", "throw"}
-EXPR_KINDS = {"assign", "postinc", "call", "and", "or", "not", "arr", "new", "msg", "class", "same", "panic"}
+EXPR_KINDS = {"assign", "postinc", "call", "and", "or", "not", "arr", "new", "msg", "class", "same", "panic", "match"}
 
 
 # ----------------------------------------------------------------------------- generator
@@ -391,9 +401,29 @@ class Gen:
             sc["ints"].append(x)
         return ["expr", ["assign", x, rhs]]
 
+    def match_expr(self, sc, d=0):
+        """match (int) { ints => int, ... [default => int] }; without default only when an arm is sure to hit
+        would be needed for ints downstream, so a default is always present except when the result is only printed"""
+        r = self.rng
+        subj = self.int_expr(sc, 1)
+        arms = []
+        used = set()
+        for _ in range(r.randint(1, 3)):
+            conds = []
+            for _ in range(r.randint(1, 2)):
+                conds.append(lit(r.randint(0, 5)) if r.random() < 0.8 else self.int_expr(sc, 2))
+            res = self.match_expr(sc, d + 1) if d == 0 and r.random() < 0.15 else self.int_expr(sc, 1)
+            arms.append([conds, res])
+        return ["match", subj, arms, self.int_expr(sc, 1), r.randint(0, len(arms))]
+
     def simple(self, sc):
         r = self.rng
         c = r.random()
+        if c < 0.05:
+            x = r.choice(sc["assignable"])
+            if x not in sc["ints"]:
+                sc["ints"].append(x)
+            return ["expr", ["assign", x, self.match_expr(sc)]]
         if c < 0.35:
             return self.assign(sc)
         if c < 0.45 and sc["ints"]:
@@ -799,6 +829,29 @@ def paramalias_programs():
     return out
 
 
+def match_programs():
+    """match: strict comparison, first hit in source order, conditions evaluated lazily left to right (side effects
+    shown by a tracing function), default anywhere, no hit without default gives null (origami), nested match"""
+    out = []
+    tr = {"name": "tr", "params": [["n", None]], "body": [tag("<", var("n")), ["return", var("n")]]}
+    def show(m):
+        return [["expr", ["assign", "r", m]], tag(" r=", var("r"))]
+    for x in range(0, 5):
+        m1 = ["match", var("x"), [[[lit(1)], lit(10)], [[["call", "tr", [lit(2)]], ["call", "tr", [lit(3)]]], ["call", "tr", [lit(20)]]],
+                                   [[lit(2)], lit(99)]], lit(7), x % 4]
+        m2 = ["match", ["call", "tr", [var("x")]], [[[lit(0), lit(4)], lit(40)]], None, 0]
+        m3 = ["match", var("x"), [[[lit(3)], ["match", ["bin", "Add", var("x"), lit(1)], [[[lit(4)], lit(44)]], lit(5), 0]]], lit(6), 1]
+        m4 = ["match", ["bin", "Concat", lit("k"), var("x")], [[[lit("k1")], lit(1)], [[lit("k2"), lit("k3")], lit(23)]], lit(0), 2]
+        main = [["expr", ["assign", "x", lit(x)]]] + show(m1) + show(m2) + show(m3) + show(m4)
+        out.append({"funcs": [tr], "main": main})
+    # strictness: an int subject does not match a string condition and vice versa
+    out.append({"funcs": [], "main": [["expr", ["assign", "x", lit(2)]],
+                                     ["expr", ["assign", "r", ["match", var("x"), [[[lit("2")], lit(1)], [[lit(2)], lit(2)]], lit(0), 0]]],
+                                     tag("r=", var("r")),
+                                     ["expr", ["assign", "s", ["match", lit("2"), [[[lit(2)], lit(1)]], lit(3), 1]]], tag(" s=", var("s"))]})
+    return out
+
+
 def dirty_programs(rng, n):
     """programs of the recorded defect classes (kept small and otherwise plain, so that the key names the class)"""
     out = []
@@ -976,6 +1029,14 @@ class Probe:
             return a == b and type(a) == type(b)
         if k == "panic":
             raise _Thr(("err", "panic"))
+        if k == "match":
+            v = self.ev(e[1], fr)
+            for cs, x in e[2]:
+                for c in cs:
+                    w = self.ev(c, fr)
+                    if w == v and type(w) == type(v):
+                        return self.ev(x, fr)
+            return None if e[3] is None else self.ev(e[3], fr)
         raise ValueError(k)
 
     def is_a(self, cls, target):
@@ -1196,7 +1257,7 @@ def main(ck):
         "call frames are name-indexed maps standing for the per-call slot vectors (parser/scope_manager.go index assignment is not modelled)",
         "statement result values (the value beside the control) are not modelled: unobservable in the core since /repo 110cdb4",
         "harness/cmd/c02 (Go, vrun.RunString on a fresh VM per program) and checks/C02.py (generator, PHP and Coq printers)",
-        "not modelled: match, generators/yield, references, closures, classes, goto, foreach over objects/iterators, by-reference foreach",
+        "not modelled: generators/yield, references, closures, classes, goto, foreach over objects/iterators, by-reference foreach",
     ]
     ck.prove()
     binary, out = ck.go_build("c02")
@@ -1227,6 +1288,8 @@ def main(ck):
             cases.append((pr, True, None, "recursion"))
         for pr in paramalias_programs():
             cases.append((pr, True, None, "paramalias"))
+        for pr in match_programs():
+            cases.append((pr, True, None, "match"))
         nrand = 450 if ck.tier == "quick" else 6000
         discarded = 0
         while nrand > 0:
@@ -1310,7 +1373,7 @@ def main(ck):
     ck.cov["construct_occurrences"] = dist
     ck.cov["program_size_median"] = sizes[len(sizes) // 2] if sizes else 0
     ck.cov["program_size_max"] = sizes[-1] if sizes else 0
-    ck.cov["families"] = {f: sum(1 for c in cases if c[3] == f) for f in ("nest2", "alias", "escape", "recursion", "paramalias", "random", "dirty", "replay")}
+    ck.cov["families"] = {f: sum(1 for c in cases if c[3] == f) for f in ("nest2", "alias", "escape", "recursion", "paramalias", "match", "random", "dirty", "replay")}
     ck.cov["impl_outcomes"] = outcome_hist
     ck.samples = [srcs[len(srcs) // 2], srcs[-1]] if srcs else []
     ck.finish(level="proof", evaluations=len(cases), distinct_nontrivial=nontriv,
